@@ -75,6 +75,7 @@ func main() {
 		wit      = flag.Int("witnesses", 3, "witness paths to extract")
 		kfs      = flag.String("known", "", "comma separated known-finding ids that are listed as known")
 		logDir   = flag.String("smtlog", "", "directory for smt logs")
+		noSlice  = flag.Bool("noslice", false, "disable constraint-independence slicing")
 		noLazy   = flag.Bool("nolazy", false, "eager feasibility checks at every branch")
 		unwindV  = flag.Bool("unwindviol", false, "treat unwind bound excess as violation (loop-forever check)")
 		forceCVC = flag.Bool("cvc5", false, "send all queries to cvc5")
@@ -135,6 +136,7 @@ func main() {
 	e.cfg = Config{Unwind: *unwind, MaxSteps: *maxSteps, Merge: !*noMerge, MaxPaths: *maxPaths, Trace: *trace, Preempt: *preempt,
 		Lockset: *lockset, ConcMax: *concMax, Witnesses: *wit, KnownKF: map[string]bool{}, UnwindViol: *unwindV}
 	e.cfg.Lazy = !*noLazy
+	e.cfg.NoSlice = *noSlice
 	e.cfg.Debug = os.Getenv("GOSYM_DEBUG") != ""
 	for _, k := range strings.Split(*kfs, ",") {
 		if k != "" {
